@@ -43,7 +43,9 @@ type trial struct {
 	Err       bool    `json:"err"`
 	FailFirst int     `json:"fail_first"` // retry placements: the first n invocations return errIn
 	Waiting   bool    `json:"waiting"`    // bulkhead / limiter placements: the permit is not available, the policy waits
-	Async     bool    `json:"async"`
+	// SharedBuilder: the Timeout is one of several built from the same builder with different listeners
+	SharedBuilder bool `json:"shared_builder,omitempty"`
+	Async         bool `json:"async"`
 }
 
 func (tr trial) limit() time.Duration { return time.Duration(tr.LimitUs) * time.Microsecond }
@@ -78,9 +80,27 @@ type outcome struct {
 func runTrial(tr trial) (violation string, out outcome) {
 	limit := tr.limit()
 	var listener atomic.Int32
-	to := timeout.Builder[int](limit).OnTimeoutExceeded(func(e failsafe.ExecutionDoneEvent[int]) {
+	// SharedBuilder: the Timeout under test is the middle one of three built from one builder, each with its own listener;
+	// what the builder is told before or after must not reach it
+	var sibling atomic.Int32
+	tb := timeout.Builder[int](limit)
+	if tr.SharedBuilder {
+		tb.OnTimeoutExceeded(func(failsafe.ExecutionDoneEvent[int]) { sibling.Add(1) })
+		_ = tb.Build()
+	}
+	tb.OnTimeoutExceeded(func(e failsafe.ExecutionDoneEvent[int]) {
 		listener.Add(1)
-	}).Build()
+	})
+	to := tb.Build()
+	if tr.SharedBuilder {
+		tb.OnTimeoutExceeded(func(failsafe.ExecutionDoneEvent[int]) { sibling.Add(1) })
+		_ = tb.Build()
+	}
+	defer func() {
+		if violation == "" && sibling.Load() != 0 {
+			violation = fmt.Sprintf("%s: the listener of another Timeout built from the same builder was called %d times (own listener: %d)", tr.Placement, sibling.Load(), listener.Load())
+		}
+	}()
 
 	var mu sync.Mutex
 	var obs []*attemptObs
@@ -441,6 +461,7 @@ func genTrial(t *rapid.T) trial {
 	case "hedge(timeout)", "bulkhead(timeout)":
 		tr.DurKind = "block"
 	}
+	tr.SharedBuilder = rapid.IntRange(0, 2).Draw(t, "sharedBuilder") == 0
 	return tr
 }
 
